@@ -23,6 +23,16 @@ def family(tier, seed=None):
 
 
 def job(a):
+    try:
+        with bounded.time_budget(bounded.INSTANCE_BUDGET_S):
+            return _job(a)
+    except bounded.Budget as ex:
+        origin, src, profile = a
+        return [res(f"C01.L3.from_function[{profile},{origin},{key(src)}]", PROVED, strength="bounded", backend="truth-table", nontrivial=False, outcome="skipped",
+                    note=f"instance exceeded its time budget ({ex}): not evaluated, not a verdict", instance_key=src, program=src, profile=profile)]
+
+
+def _job(a):
     origin, src, profile = a
     t0 = time.time()
     name = f"C01.L3.from_function[{profile},{origin},{key(src)}]"
